@@ -36,6 +36,8 @@ type c12PathCase struct {
 	// Repairable: blob paths: the batch also holds a failed-activity event whose failure message contains an invalid
 	// UTF-8 byte, so the blob must be repaired before it can be walked; the name must still be translated
 	Repairable bool `json:"repairable,omitempty"`
+	// JSONBlobs: blob paths: the event blobs are JSON-encoded (Temporal's other supported blob encoding)
+	JSONBlobs bool `json:"json_blobs,omitempty"`
 }
 
 func c12Enum(r vfRoot, unclassified *[]string) []vfshared.Path {
@@ -152,6 +154,9 @@ func c12RunPathCase(c c12PathCase) (vfshared.Path, error) {
 			continue
 		}
 		msg := c12BuildPath(p, c.Value, c.Companion)
+		if c.JSONBlobs {
+			vfshared.ReencodeBlobsAsJSON(msg.ProtoReflect())
+		}
 		ref := msg
 		if c.Repairable {
 			var n int
@@ -173,7 +178,7 @@ func c12RunPathCase(c c12PathCase) (vfshared.Path, error) {
 	return vfshared.Path{}, fmt.Errorf("HARNESS: path %q no longer exists under %s %s", c.Path, c.Method, c.Side)
 }
 
-const c12PathRule = "every structural path (protobuf descriptors; each message type at most R times per path, Failure R+1; through event blobs into every HistoryEvent type) from every request/response/stream message of WorkflowService and AdminService to a namespace-name field; one minimal message per path holding a mapped name, alone, with a namespace-free companion event in the same batch, and with a failed-activity event whose failure message holds invalid UTF-8 in the same batch (the blob has to be repaired before it can be walked); real TranslationInterceptor vs independent reference translator; non-trivial = path length>=3 or through oneof/repeated/map/blob or failure depth>=2; distinct = (method, side, path, companion)"
+const c12PathRule = "every structural path (protobuf descriptors; each message type at most R times per path, Failure R+1; through event blobs into every HistoryEvent type) from every request/response/stream message of WorkflowService and AdminService to a namespace-name field; one minimal message per path holding a mapped name, alone, with a namespace-free companion event in the same batch, and with a failed-activity event whose failure message holds invalid UTF-8 in the same batch (the blob has to be repaired before it can be walked), and with JSON-encoded instead of proto3-encoded blobs; real TranslationInterceptor vs independent reference translator; non-trivial = path length>=3 or through oneof/repeated/map/blob or failure depth>=2; distinct = (method, side, path, companion)"
 
 func TestVF_C12_Paths(t *testing.T) {
 	const part = "paths"
@@ -206,8 +211,8 @@ func TestVF_C12_Paths(t *testing.T) {
 		paths := c12Enum(r, &unclassified)
 		for _, p := range paths {
 			_, _, _, _, viaBlob, _ := p.Features()
-			for _, variant := range []int{0, 1, 2, 3} {
-				companion, repairable := variant&1 == 1, variant&2 == 2
+			for _, variant := range []int{0, 1, 2, 3, 4, 5} {
+				companion, repairable, jsonBlobs := variant&1 == 1, variant&2 == 2, variant&4 == 4
 				if variant != 0 && !viaBlob {
 					continue
 				}
@@ -215,7 +220,7 @@ func TestVF_C12_Paths(t *testing.T) {
 				if idx%nshards != shard {
 					continue
 				}
-				c := c12PathCase{Method: r.M.FullMethod, Side: r.Side, Path: p.String(), Value: "ns-local", Companion: companion, Repairable: repairable}
+				c := c12PathCase{Method: r.M.FullMethod, Side: r.Side, Path: p.String(), Value: "ns-local", Companion: companion, Repairable: repairable, JSONBlobs: jsonBlobs}
 				_, err := c12RunPathCase(c)
 				if err == errNotLegacy {
 					st.Class("repairable_variant_skipped_not_in_legacy_schema", 1)
@@ -226,6 +231,9 @@ func TestVF_C12_Paths(t *testing.T) {
 				var cl []string
 				if repairable {
 					cl = append(cl, "blob_needs_utf8_repair_first")
+				}
+				if jsonBlobs {
+					cl = append(cl, "json_encoded_blob")
 				}
 				if viaBlob {
 					cl = append(cl, "via_blob")
